@@ -5,7 +5,8 @@ import json, os, re, subprocess, sys, time
 SEEDS = "/verif/seeded"
 EXTRA = {"C03-m2": ["C12"], "C03-m3": ["C01"], "C05-m1": ["C01"], "C05-m2": ["C04"], "C05-m3": ["C01"], "C08-m2": ["C09"], "C08-m3": ["C09"], "C09-m3": ["C02"],
          "C11-m1": ["C04"], "C13-m1": ["C15"], "C13-m2": ["C04"], "C13-m3": ["C04", "C11"], "C15-m2": ["C13"], "C04-m3": ["C13"], "C14-m1": ["C04"],
-         "C09-m4": ["C04"], "C03-m4": ["C17"], "C13-m5": ["C04"], "C06-m5": ["C17"], "C04-m4": ["C09"], "C15-m4": ["C07"], "C15-m5": ["C13"], "C05-m4": ["C02"], "C05-m5": ["C04"], "C17-m4": ["C03"], "C12-m5": ["C04"], "C14-m5": [], "C01-m5": ["C11"], "C11-m5": ["C04"]}
+         "C09-m4": ["C04"], "C03-m4": ["C17"], "C13-m5": ["C04"], "C06-m5": ["C17"], "C04-m4": ["C09"], "C15-m4": ["C07"], "C15-m5": ["C13"], "C05-m4": ["C02"], "C05-m5": ["C04"], "C17-m4": ["C03"], "C12-m5": ["C04"], "C14-m5": [], "C01-m5": ["C11"], "C11-m5": ["C04"],
+         "C13-m6": ["C04"], "C02-m6": ["C17"], "C06-m6": ["C17"], "C03-m6": ["C14"], "C04-m6": ["C05"], "C10-m6": ["C02"], "C14-m6": ["C04"]}
 pat = re.compile(sys.argv[1]) if len(sys.argv) > 1 else None
 claimed = [c["property_id"] for c in json.load(open("/verif/MANIFEST.json"))["checks"]]
 res_path = os.environ.get("SWEEP_RESULTS") or os.path.join(SEEDS, "results.json")
